@@ -28,21 +28,22 @@ pub const POSITIONS: [(&str, &str, &str); 6] = [
 
 /// Atoms: every literal kind, every kind of path, the bare diverging forms,
 /// and a few closed calls whose types are interesting (zero-sized, tracked).
-pub const ATOMS: [&str; 48] = [
-    // the first 8 are the reduced set used below depth-2 expressions in the quick tier
-    "1", "()", "x", "l", "o", "return", "None", "[]",
+pub const ATOMS: [&str; 49] = [
+    // the first 5 (quick) / 8 (thorough, minor positions) are the reduced sets used below depth-2 expressions
+    "1", "x", "l", "return", "None", "()", "o", "[]",
     //
     "true", "\"s\"", "r", "e", "u", "Option.None", "{}", "E.A", "mkz()",
     "1u8", "1.5", "'c'", "AS1", "1.1.1.1", "::1", "0x1f", "f\"t\"", "[1]", "{ a: 1 }", "s", "K", "g", "R", "E", "E.B",
     "r.a", "x.a", "l.len", "E.A.x", "std", "pkg", "super", "String", "return 1", "accept", "reject",
-    "g(1)", "Option.Some(())", "mk(1)", "9223372036854775808",
+    "g(1)", "Option.Some(())", "mk(1)", "9223372036854775808", "0",
 ];
 pub const ATOMS_REDUCED: usize = 8;
+pub const ATOMS_QUICK: usize = 5;
 
 /// One-hole templates. `□`: the hole is delimited, the child is inserted as
 /// is; `■`: the child is parenthesised unless it is an atom, so that the
 /// parser builds exactly form(child).
-pub const TEMPLATES: [&str; 138] = [
+pub const TEMPLATES: [&str; 140] = [
     // Return
     "return □", "accept □", "reject □",
     // parentheses, Block
@@ -80,7 +81,7 @@ pub const TEMPLATES: [&str; 138] = [
     "if true { □; }", "if true { 1 } else if ■ { 2 } else { 3 }",
     // While, For
     "while ■ { }", "while false { □ }", "while false { □; }", "for i in ■ { }", "for i in l { □; }",
-    "for i in l { □ }", "for x in ■ { x; }",
+    "for i in l { □ }", "for x in ■ { x; }", "{ while false { □ }; }", "{ for i in l { □ }; }",
     // QuestionMark, FString
     "■?", "f\"a{□}b\"", "f\"{□}{□}\"",
 ];
@@ -97,7 +98,7 @@ fn d2_atoms(cfg: &Cfg, pos: usize) -> usize {
         // atom set in statement position of a function only
         Tier::Quick => {
             if pos == 0 {
-                ATOMS_REDUCED
+                ATOMS_QUICK
             } else {
                 0
             }
